@@ -542,6 +542,7 @@ def main():
     failures = []
     classes = {}
     nontrivial = set()
+    refused_outside = 0
     for i, (c, r, m) in enumerate(zip(cases, rust, model)):
         cls = c.get("cls", "default")
         classes[cls] = classes.get(cls, 0) + 1
@@ -564,6 +565,10 @@ def main():
                                         "(the model evaluates it in milliseconds)") if r == ["timeout"] else
                                        "the process running corgi died on this program (abort / stack overflow), "
                                        "which no panic-catching can report"})
+        elif d is not None and c.get("refusal_ok") and d < len(r) and r[d] == "panic":
+            # inputs the properties do not speak about (sum over more dimensions than the rank, rank-0 parameters):
+            # corgi accepts them today and the model follows it, but a tree that REFUSES them is not in violation
+            refused_outside += 1
         elif d is not None:
             kind = dsl.difference_kind(r, m, d)
             # is the disagreement itself a failing input of THIS property?  For functional properties the
@@ -581,6 +586,7 @@ def main():
                                        "instruction %d: %s" % (kind, d, dsl.instr_to_text(c["instrs"][d])
                                                                if d < len(c["instrs"]) else "?")})
     extra_counts = {}
+    extra_counts["programs_with_inputs_outside_the_property_refused_by_corgi"] = refused_outside
     # programs that end in a panic on BOTH sides are legitimate only in refusal streams; everywhere else they
     # silently truncate coverage, so they are counted per class and shown
     both_panic = {}
